@@ -306,7 +306,7 @@ pub fn property() -> Property {
             "integers are [+-]?[0-9]+ within i64",
         ],
         streams: vec![
-            random_stream("texts", "generated entry texts with 0-3 injected faults", case_strategy, |t| t.pick(100_000, 1_500_000), check),
+            random_stream("texts", "generated entry texts with 0-3 injected faults", case_strategy, |t| t.pick(100_000, 6_000_000), check),
             enumerated_stream("missing", "each required variable (and each pair) removed from a complete entry", enumerate_missing, check),
             enumerated_stream("is_completed", "all subsets of required variables set through the API", subsets, check_completed),
         ],
